@@ -1,1 +1,2 @@
 pub mod arith;
+pub mod units;
